@@ -13,7 +13,7 @@ import sys
 
 V = os.path.dirname(os.path.dirname(os.path.abspath(__file__)))
 ROOT = os.path.join(V, "seeded")
-SUITE = "/venv/bin/python -m pytest -q -p no:cacheprovider --timeout=900 -x -q"
+SUITE = "/venv/bin/python -m pytest -q -p no:cacheprovider --timeout=900"
 
 
 def sh(cmd, **kw):
@@ -54,19 +54,24 @@ def run_demo(wt, sid):
 
 
 def suite(wt):
-    r = sh(f"cd {wt} && JAX_PLATFORMS=cpu {SUITE} 2>&1 | tail -3", timeout=3600)
-    tail = r.stdout.strip().splitlines()[-1] if r.stdout.strip() else ""
+    r = sh(f"cd {wt} && JAX_PLATFORMS=cpu {SUITE} 2>&1 | tail -8", timeout=5400)
+    lines = [l for l in r.stdout.strip().splitlines() if " passed" in l or " failed" in l or " error" in l]
+    tail = lines[-1] if lines else (r.stdout.strip().splitlines()[-1] if r.stdout.strip() else "")
     m = re.search(r"(\d+) passed", tail)
     failed = re.search(r"(\d+) failed", tail)
     return (int(m.group(1)) if m else 0, int(failed.group(1)) if failed else 0, tail)
 
 
 def main():
-    ids = sys.argv[1:] or sorted(os.listdir(ROOT))
+    args = [a for a in sys.argv[1:] if not a.startswith("--")]
+    skip_demo = "--suite-only" in sys.argv
+    ids = args or sorted(d for d in os.listdir(ROOT) if os.path.isdir(os.path.join(ROOT, d)))
     metas = {s: json.load(open(os.path.join(ROOT, s, "meta.json"))) for s in ids}
     wt = "/tmp/confirm-seeded"
     # (1) demos
-    for sid in ids:
+    for sid in ([] if skip_demo else ids):
+        if "demo_exit_patched" in metas[sid].get("confirmed", {}):
+            continue
         worktree(wt)
         clean = run_demo(wt, sid)
         ok, err = apply(wt, sid)
@@ -78,6 +83,9 @@ def main():
     # (2) test suite, grouped by disjoint files
     groups = []
     for sid in ids:
+        metas[sid] = json.load(open(os.path.join(ROOT, sid, "meta.json")))  # re-read
+        if "suite_passed" in metas[sid].get("confirmed", {}):
+            continue
         fs = files_of(os.path.join(ROOT, sid, "patch.diff"))
         for g in groups:
             if not (g["files"] & fs):
@@ -96,11 +104,11 @@ def main():
                 worktree(wt)
                 apply(wt, s)
                 p1, f1, t1 = suite(wt)
-                metas[s]["confirmed"].update(suite_run="alone", suite_passed=p1, suite_failed=f1, suite_tail=t1)
+                metas[s].setdefault("confirmed", {}).update(suite_run="alone", suite_passed=p1, suite_failed=f1, suite_tail=t1)
                 print("  alone", s, t1, flush=True)
         else:
             for s in applied:
-                metas[s]["confirmed"].update(suite_run="together with " + ",".join(x for x in applied if x != s), suite_passed=passed, suite_failed=failed, suite_tail=tail)
+                metas[s].setdefault("confirmed", {}).update(suite_run="together with " + ",".join(x for x in applied if x != s), suite_passed=passed, suite_failed=failed, suite_tail=tail)
         for s in g["ids"]:
             json.dump(metas[s], open(os.path.join(ROOT, s, "meta.json"), "w"), indent=1)
     sh(f"git -C /repo worktree remove --force {wt}")
